@@ -118,6 +118,11 @@ impl Engine for MigrEngine {
             knobs.insert("source".into(), 2);
             knobs.insert("synth_scatter".into(), 1);
             store.data_blocks = *sk.pick(&[258u64, 270, 300, 511, 513, 530, 700, 770, 1008, 1030]) + sk.below(3) as u64;
+            // one source in ten also holds a record at or next to the value-size limit (4 MiB)
+            if sk.chance(1, 10) {
+                store.data_blocks = 1100 + sk.below(300) as u64;
+                knobs.insert("synth_giant".into(), 1 + sk.below(4) as i64);
+            }
         }
         let _ = property;
         Scenario {
@@ -562,6 +567,23 @@ pub fn synth_scatter(sc: &Scenario, t: &mut Tape, salt: u64) -> Vec<u8> {
     };
     let n = 3 + t.below(8) as usize;
     let mut placed: Vec<(Vec<u8>, u64)> = Vec::new();
+    let giant = sc.knob("synth_giant", 0);
+    if giant > 0 {
+        // a value at the size limit (or just below it), under a key that sorts in the middle
+        let len = match giant {
+            1 => codec::MAX_VALUE,
+            2 => codec::MAX_VALUE - 1,
+            3 => codec::MAX_VALUE - codec::BLOCK + 17,
+            _ => codec::MAX_VALUE - 40,
+        };
+        let key = b"m:giant".to_vec();
+        let value = harness::plain_value(123, 9, 77, len);
+        let blocks = codec::extent_blocks(version, key.len(), value.len());
+        if let Some(s) = anchor(t, blocks) {
+            codec::put_record(&mut image, version, s, &key, &value, now - 2_000_000, 0);
+            placed.push((key, now - 2_000_000));
+        }
+    }
     for i in 0..n {
         let key = key_of(i);
         let want = *t.pick(&[1u64, 1, 2, 3, 3, 4, 5, 7]);
